@@ -71,7 +71,9 @@ func getBlockIndices(db objects.Store, tbl *objects.Table, bb []byte, start, end
 	}
 	sl := make([]*objects.BlockIndex, end-start)
 	slStart := start
-	if prevEnd > start {
+	// reuse the indices of the previous window where the two overlap; with a
+	// corrupted (unsorted) table index a window can lie before the previous one
+	if prevEnd > start && start >= prevStart && start-prevStart < len(prevSl) {
 		copy(sl, prevSl[start-prevStart:])
 		start = prevEnd
 	}
